@@ -155,6 +155,20 @@ CHECKS = {
    note="Trusted: canonsort (C10), the transcribed loop structure of vRecur.to_ical/from_ical (shape checks + comparison with the real "
         "method), dateutil.rrule as the standard expander (external).",
    technique="contract-based deductive verification where it applies (fstc text lemma, fin tables/finite codecs, shape rules); bounded stand-in for dispatch and the external expander"),
+ "C04": dict(
+   category="other", design_ref="DESIGN.md section 8 C04",
+   text="Raises contracts: a static may-raise analysis over the real AST (callees analysed recursively, built-ins/zoneinfo/pytz/dateutil "
+        "from an assumed table) shows that every value class's from_ical, Contentline.parts, Parameters.from_ical and "
+        "Contentlines.from_ical can only raise ValueError and that the provider lookups raise nothing; a candidate outside the allowed "
+        "classes counts only after a native input confirms it. Isolation: one iteration of the real Component.from_ical loop (property "
+        "branch) is symbolically executed by pyvc with those contracts: in a lenient component a ValueError never escapes, exactly one "
+        "error is recorded and nothing else is added; in a strict one it is re-raised. Caching a VTIMEZONE converts failures into "
+        "ValueError (shape). Totality and time of the whole pipeline on hostile input under both providers is a labelled bounded "
+        "stand-in through the project's own oracle - a contract on one function cannot decide termination of the whole parse, hence 'other'.",
+   note="Trusted: the assumed raises table (entries used are listed in evidence), guard recognition of the analysis, type "
+        "preconditions (decoders receive str), one loop iteration generalises (the loop carries no state between lines other than the "
+        "stack).",
+   technique="contract-based deductive verification: static raises-contracts (may-raise analysis) + pyvc isolation obligations on the real loop body; bounded fuzz stand-in"),
 }
 NA_REASON = "check not built yet (build round in progress; DESIGN.md section 8 describes the planned contracts)"
 
